@@ -126,3 +126,68 @@ def rule_json_flow(ctx):
                         % (n, sorted(deps), wkeys, sorted(want)))
     r.check_floor()
     return r
+
+
+def rule_json_skip(ctx):
+    f = ctx.facts()
+    r = RuleResult('JSON-SKIP', 'an optional field is omitted from the document only when it is None: the skip predicate of every Option '
+                                'field of SourceMap is Option::is_none (a present-but-empty value must survive the round trip)')
+    r.floor = 3
+    sm = anchors.adt_by_name(f, 'SourceMap')
+    ser, keys, skips = _serialize_keys(f, sm['path'])
+    opt_fields = {fl['name'] for fl in anchors.fields(sm) if fl['ty'].startswith('std::option::Option<')}
+    # predicate calls: any call whose first argument is a reference to a field of self and whose result feeds a switch
+    for pt, t in ser.calls():
+        c = t.get('callee')
+        if not c or not t['args'] or ser.local_ty(t['dest']['l']) != 'bool':
+            continue
+        fld = None
+        for root, fs in access_paths(ser.expr_of_operand(t['args'][0]), through_calls={'deref'}):
+            if fs and root[0] == 'arg':
+                fld = fs[-1]
+        if fld is None:
+            continue
+        if fld in opt_fields:
+            ok = c['name'] == 'is_none' and 'option::Option' in c.get('path', '')
+            r.site('skip predicate of optional field %s is `%s`' % (fld, c['path']), t['s'], 'ok' if ok else 'violation')
+            if not ok:
+                r.violation('skip:%s' % fld, t['s'], ser.path,
+                            'optional field `%s` is skipped by `%s`, not by Option::is_none: a present value for which the predicate holds '
+                            '(e.g. Some("")) is dropped by to_json and reads back as None' % (fld, c['path']))
+        else:
+            r.site('skip predicate of non-optional field %s is `%s` (not decided)' % (fld, c['path']), t['s'], 'ok')
+    r.check_floor()
+    return r
+
+
+def rule_json_pure(ctx):
+    from .panics import local_cone
+    f = ctx.facts()
+    r = RuleResult('JSON-PURE', 'from_json / from_slice / from_reader are functions of their input alone: their crate-local cones touch no '
+                                'static or thread-local state (the result of parsing a document cannot depend on earlier calls)')
+    r.floor = 3
+    sm = anchors.adt_by_name(f, 'SourceMap')
+    entries = [b for b in f.impl_bodies(sm['path']) if b.d.get('pub') and b.name in ('from_json', 'from_slice', 'from_reader')]
+    if len(entries) != 3:
+        raise anchors.AnchorMissing('SourceMap::from_json/from_slice/from_reader: %d' % len(entries))
+    for e in entries:
+        bad = []
+        for root, members in local_cone(f, e).items():
+            for m in members:
+                for pt, s in m.points():
+                    if s['k'] == 'assign' and s['r']['k'] == 'tls':
+                        bad.append((s['s'], 'thread-local `%s`' % s['r']['path']))
+                    if s['k'] == 'call' and s.get('callee') and ('thread::local' in s['callee'].get('path', '') or
+                                                                 'LocalKey' in s['callee'].get('path', '')):
+                        bad.append((s['s'], 'thread-local access `%s`' % s['callee']['path']))
+                    for o in ([s['r'].get('o')] if s['k'] == 'assign' else []) + (s.get('args') or [] if s['k'] == 'call' else []):
+                        if isinstance(o, dict) and o.get('k') == 'const' and o.get('ptr') and 'item' in o and 'static' in o.get('item', ''):
+                            bad.append((s['s'], 'static item'))
+        ok = not bad
+        r.site('%s: cone is free of static / thread-local state' % e.path, e.span(), 'ok' if ok else 'violation')
+        for site, why in bad:
+            r.violation('%s:%s' % (e.path, why.split('`')[1] if '`' in why else why), site, e.path,
+                        'JSON entry point keeps state across calls (%s): a document can parse differently depending on what was parsed '
+                        'before on this thread' % why)
+    r.check_floor()
+    return r
